@@ -137,6 +137,14 @@ CLAIMED = {
             "assertion comparing Equal to an earlier one is dropped silently; (R4) BoundaryConstraints::new passes the prepared vectors and the coefficient halves split at the main count, "
             "zipped by position. That the constraints vanish exactly on the asserted cells, and the divisor degrees, are numerical and not decided.",
             "rustc MIR; BTreeSet iterates in Ord order; overlaps_with is true for equal (column, first_step, stride) (C21, not decided)", "DESIGN.md section 4, C22"),
+    "C29": ("must-pass-through / every-iteration rules over the MIR of Trace::validate and its callbacks, symbolic reading of the step range, provenance of compared cells",
+            "Decides the coverage clauses: Trace::validate skips nothing the property quantifies over. (R1) every main assertion, and every auxiliary assertion when an auxiliary trace is "
+            "supplied, is applied over length() steps by a callback that compares the asserted value with the trace cell (assertion's column, callback's step) of the matching segment and "
+            "diverges on a difference; (R2) the step loop runs over 0..length() - num_transition_exemptions(), reads the frame at the step, calls the evaluator and compares every evaluation "
+            "with ZERO, for the main and the auxiliary chain, the latter entered whenever the trace is multi-segment; (R3) the domain point advances once per iteration and the periodic values "
+            "are recomputed from it before the evaluators; (R4) read_aux_frame reads rows row_idx and (row_idx + 1) % num_rows. No test can see a weakening of these (validate only rejects, and "
+            "tests feed it valid traces). That the evaluators are the AIR's constraints, Assertion::apply's step set, and equality of trace tables built in different ways are not decided.",
+            "rustc MIR; Air::* evaluators are user code; Assertion::apply enumerates the asserted steps (C21)", "DESIGN.md section 4, C29"),
     "C16": ("abstract interpretation of the S-box code over monomial exponents (exponents.py) + call-order / constant rules",
             "Decides three structural clauses of the Rescue hashers (Rp62_248, Rp64_256, RpJive64_256): (R1) the exponent to which apply_sbox raises every state element, "
             "computed by interpreting its MIR with each element abstracted to its exponent (square -> 2e, product -> sum, helper calls and element-wise iterator "
@@ -170,7 +178,6 @@ NOT_APPLICABLE = {
     "C18": "Root/opening consistency and parallel = sequential build are numerical; the rejection/no-panic part is C19.",
     "C21": "Assertion step sets / overlap detection are arithmetic case analysis over run-time integers; deciding exactness is enumeration, i.e. execution.",
     "C23": "Divisor degrees, evaluation degrees and periodic polynomials are formulas over run-time integers/field values.",
-    "C29": "Trace validation agreeing with an independent checker requires evaluating constraints on traces.",
 }
 
 # claimed in DESIGN.md but not built yet: listed as not applicable *for now* with that reason
